@@ -650,7 +650,11 @@ class CFG:
         return [n for n in self.nodes if n in self.reachable and (n.kind == "for" or (n.kind == "test" and isinstance(n.stmt, ast.While)))]
 
     def enclosing_loops(self, n: Node) -> list[Node]:
-        return [h for h in self.loop_heads() if n in self.loop_body(h)]
+        cache = self.__dict__.setdefault("_loop_cache", None)
+        if cache is None:
+            cache = {h: self.loop_body(h) for h in self.loop_heads()}
+            self.__dict__["_loop_cache"] = cache
+        return [h for h, body in cache.items() if n in body]
 
     # ------------------------------------------------------------ definitions / reaching definitions
     def defs_at(self, n: Node) -> list[Def]:
